@@ -10,6 +10,7 @@
    brute f boxes  =  the indices i (in increasing order) of the boxes with f (box i) = true — the
    exhaustive scan.                                                                              *)
 From PF Require Import Trees.Octree Trees.Bvh Trees.OctreeProofs Trees.BvhProofs Trees.ElemProofs.
+From PF Require Check.C16 Trees.CheckProofs.
 From Coq Require Import Permutation.
 Open Scope Z_scope.
 
@@ -26,6 +27,12 @@ Print Assumptions inv_build.
 Theorem build_none_iff_empty : forall depth boxes, new_octree depth boxes = None <-> boxes = [].
 Proof. exact new_octree_none. Qed.
 Print Assumptions build_none_iff_empty.
+
+(* the test the correspondence check runs on the implementation's own dumped tree is sound for inv:
+   every theorem below that starts from `inv t` applies to every tree that passes it *)
+Theorem invariant_test_sound : forall t, Check.C16.invb t = true -> inv t.
+Proof. exact Trees.CheckProofs.invb_inv. Qed.
+Print Assumptions invariant_test_sound.
 
 (* ElementsContainingPoint = the scan, from the invariant alone (even the order: the tree's own order) *)
 Theorem contains_eq_scan : forall p t, inv t -> containing t p = scan (inb p) t.
